@@ -32,6 +32,14 @@ FOCUS = {
        "boundary positions (first / last child, first / last attribute, root, document node, empty containers, single-character "
        "and empty strings); and off-by-one or wrong-branch slips in code paths that only one kind of node reaches (comments, "
        "processing instructions, namespace nodes, attribute nodes, detached nodes).",
+    5: "ROUND 5. Go through the property's statement clause by clause and through its code anchors one by one. For each of "
+       "your three changes pick a clause (or an anchor) that NONE of the existing changes listed below targets, and break "
+       "exactly that clause while every other clause keeps holding. Also consider shared helper code that this property "
+       "depends on without naming it (the fullname / prefix machinery in src/output/fullname.rs, the node maps in src/nodemap, "
+       "the iterators in src/access.rs, src/entity.rs, src/id/*, src/xmlvalue.rs, src/xotdata.rs): a slip there that the "
+       "existing tests miss but that makes THIS property fail for particular inputs. Prefer conditions that depend on the "
+       "data (particular characters, particular name / prefix / namespace relationships, particular positions in the tree) "
+       "over conditions that depend on sizes.",
 }
 for pid in want:
     wt = "/tmp/wt%d-%s" % (rnd, pid)
